@@ -21,11 +21,13 @@ type mockSensor struct {
 	valErr error
 }
 
-func (s *mockSensor) GetId() string                         { return s.id }
-func (s *mockSensor) GetConfig() configuration.SensorConfig { return configuration.SensorConfig{ID: s.id} }
-func (s *mockSensor) GetValue() (float64, error)            { return s.value, s.valErr }
-func (s *mockSensor) GetMovingAvg() float64                 { return s.avg }
-func (s *mockSensor) SetMovingAvg(avg float64)              { s.avg = avg }
+func (s *mockSensor) GetId() string { return s.id }
+func (s *mockSensor) GetConfig() configuration.SensorConfig {
+	return configuration.SensorConfig{ID: s.id}
+}
+func (s *mockSensor) GetValue() (float64, error) { return s.value, s.valErr }
+func (s *mockSensor) GetMovingAvg() float64      { return s.avg }
+func (s *mockSensor) SetMovingAvg(avg float64)   { s.avg = avg }
 
 var cvCounter = 0
 var cvPrefix = ""
